@@ -220,3 +220,60 @@ class RetryAsync(_RetryBase):
 
 
 CONTRACTS = [RetrySync(), RetryAsync()]
+
+
+class RetryFactory(Contract):
+    """retry._wrap: how the configuration reaches the two loops (normalisation of `catching`)."""
+    file, func, name = "helpers/retries.py", "retry._wrap", "C14/retries:retry._wrap"
+    props = ("C14",)
+
+    def callee(self, it, fv):
+        if fv.qualname in ("_wrap_sync", "_wrap_async"):
+            def spec(it2, fv2, ca, node):
+                self.calls.append((fv2.qualname, ca))
+                return it2.st.fresh_val("wrapped")
+            return spec
+        return None
+
+    def setup(self, it, env):
+        st = it.st
+        self.calls = []
+        self.is_async = st.fork("function-kind", [("sync", True), ("async", True)]) == 1
+        self.fn = st.reg_fun(OracleV("function", is_async=self.is_async))
+        self.limit, self.delay = V.VInt(st.fresh("limit", I)), st.fresh_val("delay")
+        shape = st.fork("catching-shape", [("class", True), ("tuple", True), ("set", True)])
+        if shape == 0:
+            self.catching = V.VCls(st.fresh("exc_class", I))
+        elif shape == 1:
+            self.catching = st.sym_ref("catching", "tuple")
+        else:
+            self.catching = st.sym_ref("catching", "set")
+        self.shape = shape
+        env.vars.update(limit=self.limit, delay=self.delay, catching=self.catching)
+        return None, CallArgs([self.fn])
+
+    def on_return(self, it, ret):
+        st = it.st
+        ok = len(self.calls) == 1
+        st.check("P5:exactly-one-retry-loop-is-built", z3.BoolVal(ok))
+        if not ok:
+            return
+        which, ca = self.calls[0]
+        st.check("P5:async-functions-get-the-async-loop-sync-functions-the-sync-loop",
+                 z3.BoolVal(which == ("_wrap_async" if self.is_async else "_wrap_sync")))
+        st.check("P5:function-limit-and-delay-are-passed-unchanged",
+                 z3.And(z3.BoolVal(len(ca.pos) == 1) if len(ca.pos) != 1 else ca.pos[0] == self.fn,
+                        ca.kw.get("limit") == self.limit, ca.kw.get("delay") == self.delay))
+        c = ca.kw.get("catching")
+        if self.shape == 0:
+            items = lib.concrete_items(it, c) if c is not None and it.kind(c) == "ref" else None
+            st.check("P5:a-single-exception-class-becomes-the-one-element-caught-set",
+                     z3.BoolVal(items is not None and len(items) == 1) if not (items and len(items) == 1) else items[0] == self.catching)
+        else:
+            st.check("P5:a-tuple-or-set-of-classes-is-used-as-given", c == self.catching)
+
+    def on_raise(self, it, exc):
+        it.st.check("P5:building-the-wrapper-never-raises", z3.BoolVal(False))
+
+
+CONTRACTS = CONTRACTS + [RetryFactory()]
